@@ -61,13 +61,13 @@ class StereoCondensedReactionGraph(StereoMolGraph, CondensedReactionGraph):
     """
 
     __slots__ = ("_atom_stereo_change", "_bond_stereo_change")
-    _atom_stereo_change: defaultdict[AtomId, ChangeDict[AtomStereo]]
-    _bond_stereo_change: defaultdict[Bond, ChangeDict[BondStereo]]
+    _atom_stereo_change: dict[AtomId, ChangeDict[AtomStereo]]
+    _bond_stereo_change: dict[Bond, ChangeDict[BondStereo]]
 
     def __init__(self, mol_graph: Optional[MolGraph] = None):
         super().__init__(mol_graph)
-        self._atom_stereo_change = defaultdict(ChangeDict[AtomStereo])
-        self._bond_stereo_change = defaultdict(ChangeDict[BondStereo])
+        self._atom_stereo_change = {}
+        self._bond_stereo_change = {}
 
         if mol_graph and isinstance(mol_graph, StereoCondensedReactionGraph):
             self._atom_stereo_change.update(
@@ -198,6 +198,8 @@ class StereoCondensedReactionGraph(StereoMolGraph, CondensedReactionGraph):
             del self._atom_stereo_change[atom]
         else:
             del self._atom_stereo_change[atom][stereo_change]
+            if not self._atom_stereo_change[atom]:
+                del self._atom_stereo_change[atom]
 
     def delete_bond_stereo_change(
         self, bond: Iterable[AtomId], stereo_change: Optional[Change] = None
@@ -207,6 +209,8 @@ class StereoCondensedReactionGraph(StereoMolGraph, CondensedReactionGraph):
             del self._bond_stereo_change[bond]
         else:
             del self._bond_stereo_change[bond][stereo_change]
+            if not self._bond_stereo_change[bond]:
+                del self._bond_stereo_change[bond]
 
     def active_atoms(self, additional_layer: int = 0) -> set[AtomId]:
         """
@@ -293,8 +297,8 @@ class StereoCondensedReactionGraph(StereoMolGraph, CondensedReactionGraph):
                 )
                 bond_stereo_change[new_bond][stereo_change] = new_stereo
 
-        relabeled_scrg._atom_stereo_change = atom_stereo_change
-        relabeled_scrg._bond_stereo_change = bond_stereo_change
+        relabeled_scrg._atom_stereo_change = dict(atom_stereo_change)
+        relabeled_scrg._bond_stereo_change = dict(bond_stereo_change)
 
         return relabeled_scrg
 
